@@ -106,6 +106,20 @@ def cases(seed, tier):
             b.st.append({"k": "arrnew", "x": x, "es": es})
             return x, max(n, 1)
         raise ValueError(prov)
+    # inside a function body: an array parameter (which has no size) against a captured array of size m
+    SI_ = S("Secret", "Int")
+    for kind in ("zip", "inner"):
+        for param_first in (True, False):
+            for (ea, eb) in ((SI_, SI_), (SI_, S("Public", "Int"))):
+                b = B()
+                w, m = arr(b, eb, 3)
+                a_in, _ = arr(b, ea, 3)
+                q = T.inp("q", "q_in", SI_)
+                body = [{"k": kind, "x": "z", "a": "row" if param_first else w, "b": w if param_first else "row"}, q]
+                b.st.append({"k": "def", "f": "fz", "params": [("row", ("arr", ea, None))], "ret": SI_, "body": body, "res": "q", "form": "decorator"})
+                b.st.append({"k": "call", "x": "r", "f": "fz", "args": [a_in], "kwargs": []})
+                c = f"(CUnsized {'true' if kind == 'inner' else 'false'} {'true' if param_first else 'false'} {g(ea)} {g(eb)} {gz(m)})"
+                out.append((b.done("r", [kind, "unsized-parameter"]), c))
     # every ordered pair of element types at one equal size, both operations
     for (ea, eb) in pairs:
         for kind in ("zip", "inner"):
@@ -193,6 +207,19 @@ def cases(seed, tier):
             x = b.value(("nt", tys))
             b.st.append({"k": "idx", "x": "r", "a": x, "i": i})
             out.append((b.done("r", ["index"]), f"(CIndex {glist([g(t) for t in tys])} {gz(i)})"))
+    # the same with the index written as a Python boolean (bool is an int: t[True] is t[1]); the position recorded in
+    # the MIR must still be a position, 0..n-1
+    import surface as _surface
+    for tys in nts[1:2]:
+        for i, spelt in ((1, "True"), (0, "False"), (1, "bool(7)")):
+            b = B()
+            x = b.value(("nt", tys))
+            b.st.append({"k": "idx", "x": "r", "a": x, "i": i})
+            pr = b.done("r", ["index", "index-written-as-bool"])
+            text = _surface.to_python(pr)
+            assert f"r = {x}[{i}]" in text, text
+            pr["text"] = text.replace(f"r = {x}[{i}]", f"r = {x}[{spelt}]")
+            out.append((pr, f"(CIndex {glist([g(t) for t in tys])} {gz(i)})"))
     # object fields
     objs = [[("a", ELTS[0])], [("a", ELTS[0]), ("b", ("arr", ELTS[1], 2)), ("c", S("Const", "Int"))],
             [("k1", ("nt", [ELTS[0]]))]]
@@ -215,5 +242,7 @@ def observe(res):
     idx = "None"
     op = m["operations"].get(str(o["operation_id"]), {})
     if "NTupleAccessor" in op:
-        idx = f"(Some {gz(op['NTupleAccessor']['index'])})"
+        ix = op['NTupleAccessor']['index']
+        # a position is an integer: anything else in the JSON (true / false, a string, a float) is shown as -1000000
+        idx = f"(Some {gz(ix if type(ix) is int else -1000000)})"
     return f"(OAccepted {mirprint.g_ty(o['type'])} {idx})"
